@@ -124,16 +124,17 @@ package service
 //@ func FormatFromDate [C13,C17]
 //@   modifies fmtDay
 //@   ensures fmtDay == fdiv(from.UnixNano() - 1800000000000, 86400000000000)
+//@   ensures dayOfDateText(result) == fdiv(from.UnixNano() - 1800000000000, 86400000000000)
 //@ func (*labelsGetter).getFetchRequest [C13,C17]
 //@   flag checks=-index
-//@   at sql_select.Ge lower-date-covers-range-start: typeis(arg0, "*sql.RawObject") && unbox(arg0, "*sql.RawObject").val == "date" ==> fmtDay <= fdiv(l.DateFrom.UnixNano(), 86400000000000)
-//@   at sql_select.Le upper-date-covers-range-end: typeis(arg0, "*sql.RawObject") && unbox(arg0, "*sql.RawObject").val == "date" ==> fmtDay >= fdiv(l.DateTo.UnixNano(), 86400000000000)
+//@   at sql_select.Ge lower-date-covers-range-start: typeis(arg0, "*sql.RawObject") && unbox(arg0, "*sql.RawObject").val == "date" ==> dayOfDateText(unbox(arg1, "*sql.StringVal").val) <= fdiv(l.DateFrom.UnixNano(), 86400000000000)
+//@   at sql_select.Le upper-date-covers-range-end: typeis(arg0, "*sql.RawObject") && unbox(arg0, "*sql.RawObject").val == "date" ==> dayOfDateText(unbox(arg1, "*sql.StringVal").val) >= fdiv(l.DateTo.UnixNano(), 86400000000000)
 
 // Profile types are read from the profile series index (dated by UTC day).
 //@ func (*ProfService).ProfileTypes [C13]
 //@   flag checks=-index,-assert
-//@   at sql_select.Ge lower-date-covers-window-start: isDateCol(arg0) ==> fmtDay <= fdiv(start.UnixNano(), 86400000000000)
-//@   at sql_select.Le upper-date-covers-window-end: isDateCol(arg0) ==> fmtDay >= fdiv(end.UnixNano(), 86400000000000)
+//@   at sql_select.Ge lower-date-covers-window-start: isDateCol(arg0) ==> dayOfDateText(unbox(arg1, "*sql.StringVal").val) <= fdiv(start.UnixNano(), 86400000000000)
+//@   at sql_select.Le upper-date-covers-window-end: isDateCol(arg0) ==> dayOfDateText(unbox(arg1, "*sql.StringVal").val) >= fdiv(end.UnixNano(), 86400000000000)
 
 // Spans read back from the database are decoded in a goroutine without recover: a
 // stored parent id of any length must not make the hex decoder write past its
@@ -197,8 +198,8 @@ package service
 // range, in whatever zone the process runs.
 //@ func (*QueryLabelsService).Labels [C13]
 //@   flag checks=-index,-assert
-//@   at sql_select.Ge lower-date-covers-window-start: isDateCol(arg0) ==> fmtDay <= fdiv((startMs / 1000) * 1000000000, 86400000000000)
-//@   at sql_select.Le upper-date-covers-window-end: isDateCol(arg0) ==> fmtDay >= fdiv((endMs / 1000) * 1000000000, 86400000000000)
+//@   at sql_select.Ge lower-date-covers-window-start: isDateCol(arg0) ==> dayOfDateText(unbox(arg1, "*sql.StringVal").val) <= fdiv((startMs / 1000) * 1000000000, 86400000000000)
+//@   at sql_select.Le upper-date-covers-window-end: isDateCol(arg0) ==> dayOfDateText(unbox(arg1, "*sql.StringVal").val) >= fdiv((endMs / 1000) * 1000000000, 86400000000000)
 
 // Label names / label values: whatever happens while the rows are read - a row that
 // cannot be scanned, a value that cannot be encoded - the goroutine that streams the
